@@ -3,7 +3,7 @@
    Stores are arbitrary graphs of objects (modules, classes, functions, attributes, aliases with resolved / unresolvable /
    cyclic targets); fbc is the model of find_breaking_changes with its seen_paths guard; breakages l is what it reports. *)
 From Coq Require Import List Arith Bool String.
-From Verif Require Import Lib.Sexp Model.C10_kinds Gen.C10_tables Model.C10_diff Model.C11_apidiff Proofs.C11_apidiff Model.C11_elab Proofs.C11_elab.
+From Verif Require Import Lib.Sexp Model.C10_kinds Gen.C10_tables Model.C10_diff Model.C11_apidiff Proofs.C11_apidiff Model.C11_elab Proofs.C11_elab Model.C11_dispatch Proofs.C11_ladder.
 From Verif Require Model.C07_mro.
 Import ListNotations.
 Open Scope string_scope. Open Scope list_scope. Open Scope nat_scope.
@@ -15,7 +15,7 @@ Proof. exact self_silent. Qed.
 Print Assumptions C11_self_silent.
 
 (* compatible edits: on a set U of old objects closed under public members and alias targets the new store may add members
-   anywhere, add parameters that leave fdiff empty, add a return annotation, add bases; everything outside U may change *)
+   anywhere, add parameters that leave fdiff_m (C10's parameter rules of the code under test) empty, add a return annotation, add bases; everything outside U may change *)
 Theorem C11_compatible_edits_silent : forall go gn (U : nat -> Prop),
   (forall i oi nj, U i -> get go i = Some oi -> get gn i = Some nj -> ext_node oi nj /\ ext_members go oi nj) ->
   (forall i oi n m mo, U i -> get go i = Some oi -> In (n, m) (all_members oi) -> get go m = Some mo ->
@@ -30,7 +30,7 @@ Theorem C11_added_optional_kwonly_silent : forall s1 extra s2,
   nodup_names (s1 ++ s2) = true ->
   (forall p, In p s2 -> is_pos (pkind p) = false) ->
   (forall p, In p extra -> pkind p = KO /\ required p = false /\ find (pname p) (s1 ++ s2) = None) ->
-  fdiff (s1 ++ s2) (s1 ++ extra ++ s2) = [].
+  fdiff_m (s1 ++ s2) (s1 ++ extra ++ s2) = [].
 Proof. exact fdiff_add_optional_kwonly. Qed.
 Print Assumptions C11_added_optional_kwonly_silent.
 
@@ -93,11 +93,11 @@ Theorem C11_value_changed_reported : forall go gn ri rj fuel s l,
 Proof. exact value_changed_reported. Qed.
 Print Assumptions C11_value_changed_reported.
 
-(* ... and so is every parameter breakage C10's fdiff finds on a visited function pair *)
+(* ... and so is every parameter breakage C10's fdiff_m (table rules + the regenerated old-side collision rule) finds on a visited function pair *)
 Theorem C11_parameter_breakage_reported : forall go gn ri rj fuel s l,
   fbc go gn fuel ri rj = Ok s l ->
   forall c j oi nj os oret ns nret p, Visit go gn ri rj c j -> get go c = Some oi -> get gn j = Some nj ->
-  nbody oi = BFunction os oret -> nbody nj = BFunction ns nret -> In p (fdiff os ns) ->
+  nbody oi = BFunction os oret -> nbody nj = BFunction ns nret -> In p (fdiff_m os ns) ->
   In (BParam j p) (breakages go gn l).
 Proof. exact parameter_breakage_reported. Qed.
 Print Assumptions C11_parameter_breakage_reported.
@@ -216,3 +216,64 @@ Theorem C11_inherited_removal_reported : forall ro rn ri rj fuel s l,
   exists j, view ro c cn n = Some j /\ In (BRemoved j) (breakages (elab ro) (elab rn) l).
 Proof. exact inherited_removal_reported. Qed.
 Print Assumptions C11_inherited_removal_reported.
+
+(* ======== tie to the code: the definitions regenerated from mixins.py / diff.py on every run (Gen/C11_ladder.v) ======== *)
+
+(* is_public (all theorems above use it) IS the regenerated ladder applied to the facts of (parent, member); spelled out: *)
+Theorem C11_is_public_is_generated_ladder : forall p m, is_public p m = is_public_gen (facts_of p m).
+Proof. reflexivity. Qed.
+Print Assumptions C11_is_public_is_generated_ladder.
+
+Theorem C11_generated_ladder_reads : forall x,
+  is_public_gen x =
+  if f_public_set x then f_public_val x
+  else if negb (f_is_alias x) && f_is_module x && negb (starts_with "_" (f_name x)) then true
+  else if f_has_parent x && f_parent_is_module x && f_parent_has_exports x then f_in_parent_exports x
+  else if starts_with "_" (f_name x) && negb (starts_with "__" (f_name x) && ends_with "__" (f_name x)) then false
+  else if f_has_parent x && f_in_parent_imports x then false
+  else true.
+Proof. exact is_public_gen_spec. Qed.
+Print Assumptions C11_generated_ladder_reads.
+
+(* the regenerated if/elif chain of _type_based_yield: alias first, then kind change, then by kind *)
+Theorem C11_generated_dispatch_reads : forall a b kd k,
+  dispatch_gen a b kd k =
+  if a || b then AAlias else if kd then AKindChanged
+  else match k with KModule => AMembers | KClass => AClass | KFunction => AFunction | KAttribute => AAttribute | KAlias => ANothing end.
+Proof. exact dispatch_gen_spec. Qed.
+Print Assumptions C11_generated_dispatch_reads.
+
+(* the traversal written around the regenerated definitions (what the harness extracts and runs against the implementation)
+   computes the model all theorems above are about: same log, same breakages, same exit code, for every pair of stores *)
+Theorem C11_generated_traversal_is_model : forall go gn fuel ri rj,
+  fbc_g go gn fuel ri rj = fbc go gn fuel ri rj /\
+  (forall l, breakages_g go gn l = breakages go gn l) /\ (forall r, check_exit_g go gn r = check_exit go gn r).
+Proof. intros. split; [apply fbc_agree|]. split; [apply breakages_agree|apply check_exit_agree]. Qed.
+Print Assumptions C11_generated_traversal_is_model.
+
+(* ======== the elaborated pipeline as a whole ======== *)
+
+(* elaborating a well-formed raw store (what the harness abstraction of a loaded collection guarantees, checked per case) gives a
+   well-formed store: all theorems stated for well-formed stores apply to what the elaboration computes *)
+Theorem C11_elab_well_formed : forall r, rwf r = true -> wf_store (elab r) = true.
+Proof. exact elab_wf. Qed.
+Print Assumptions C11_elab_well_formed.
+
+(* unresolvable / cyclic re-exports (missing names, a -> b -> a, chains ending nowhere: now *computed* from the target paths)
+   are skipped, never raised, and nothing loops: elaboration + comparison complete with the fuel the extracted model passes *)
+Theorem C11_elab_comparison_total : forall ro rn, rwf ro = true -> rwf rn = true ->
+  forall ri rj, ri < List.length (rnodes ro) -> rj < List.length (rnodes rn) ->
+  exists s l, fbc (elab ro) (elab rn) (default_fuel (elab ro) (elab rn)) ri rj = Ok s l.
+Proof. exact elab_comparison_total. Qed.
+Print Assumptions C11_elab_comparison_total.
+
+Theorem C11_elab_self_silent : forall r, rwf r = true ->
+  forall fuel ri s l, fbc (elab r) (elab r) fuel ri ri = Ok s l -> breakages (elab r) (elab r) l = [].
+Proof. exact elab_self_silent. Qed.
+Print Assumptions C11_elab_self_silent.
+
+(* Alias.target's chain walk (resolve_target / _resolve_target with the _passed_through flags) ends within #nodes links: any
+   larger fuel gives the same outcome, so the out-of-fuel answer of the model is never observed *)
+Theorem C11_alias_target_fuel_irrelevant : forall r i f, List.length (rnodes r) < f -> chase r f [] i = outcome r i.
+Proof. exact outcome_fuel_irrelevant. Qed.
+Print Assumptions C11_alias_target_fuel_irrelevant.
